@@ -56,17 +56,16 @@ example (E : Hid.Env) (a : Nat) : Hid.binArith E .div a 0 = none := by simp [Hid
 /-- **C05 on the core**: whenever the source semantics faults with a division by zero, a checked
 build prints what was printed before, then `division_by_zero`, `error`, and stays in the
 terminal loop (no machine fault, no wrong value) — for every program and argument vector. -/
-theorem core_division_by_zero (cf : Core.Config) (params : List String) (args : List Int) (body : Core.S)
+theorem core_division_by_zero (cf : Core.Config) (args : List Int) (pr : Core.CProg)
     (hw : 2 ≤ cf.w) (hck : cf.checked = true)
-    (hB : Core.funcLen cf.checked body + stdlibLength < 256 ^ cf.w) (hSE : Core.F0 cf args < 256 ^ cf.w)
-    (hnd : params.Nodup) (hlen : args.length = params.length)
-    (hwf : Core.wfS params body = true) (hyl : Core.youLevel body = true)
+    (hB : Core.progLen cf.checked pr + stdlibLength < 256 ^ cf.w) (hSE : Core.F0 cf args < 256 ^ cf.w)
+    (hwf : Core.wfProg pr = true) (hlen : args.length = pr.params.length)
     (fuel : Nat) (env' : Core.Env) (tr : List Ev)
-    (hex : Core.exec (256 ^ cf.w) (8 * cf.w) fuel (Core.argEnv (256 ^ cf.w) params args) body = some (env', tr, .div0))
-    (hroom : Core.pkS cf.w (Core.entryOff cf.w params) body ≤ cf.stackWords * cf.w + args.length * cf.w + cf.w) :
-    ∃ mEnd, Exec (sphinx (Core.coreProg cf params body)) (Core.coreInit cf args body)
-      (tr ++ [Ev.flag "division_by_zero", Ev.flag "error"]) ⟨tntPc (Core.funcLen cf.checked body), mEnd⟩ :=
-  let ⟨m, h, _⟩ := Core.core_correct cf params args body hw hB hSE hnd hlen hwf hyl fuel env' tr .div0 hex (fun _ => hck) hroom
+    (hex : Core.srcRun cf fuel args pr = some (env', tr, .div0))
+    (hroom : Core.pkS cf.w (Core.entryOff cf.w pr.params) pr.body ≤ Core.roomOf cf args) :
+    ∃ mEnd, Exec (sphinx (Core.coreProg cf pr)) (Core.coreInit cf args pr)
+      (tr ++ [Ev.flag "division_by_zero", Ev.flag "error"]) ⟨tntPc (Core.progLen cf.checked pr), mEnd⟩ :=
+  let ⟨m, h, _⟩ := Core.core_correct cf args pr hw hB hSE hwf hlen fuel env' tr .div0 hex (fun _ => hck) hroom
   ⟨m, h⟩
 
 end HidVerif.Props.C05
